@@ -49,6 +49,9 @@ type Case struct {
 	UpPos  []int  `json:"up_fail_pos,omitempty"` // where the failing up command sits: 0 last, 1 first, 2 in the middle (a succeeding one follows)
 	// Absent: per context, the hook lists that are not given at all (bit 0 up, 1 down, 2 before, 3 after)
 	Absent []int  `json:"absent,omitempty"`
+	// DownFail: the context's down command fails (after having left its token): the other contexts' down commands are
+	// due all the same
+	DownFail []bool `json:"down_fail,omitempty"`
 	Tasks  []T    `json:"tasks"`
 	Mode   string `json:"mode"` // parallel | sequential | scheduler | cli
 	// cli: how the tasks are spread over the targets of the command line, in order: a target is one task run
@@ -113,6 +116,9 @@ func (c Case) hooks(k int, trace string) (up, down, before, after []string) {
 	down, before, after = []string{tok(trace, fmt.Sprintf("down:%d", k))}, []string{tok(trace, fmt.Sprintf("cb:%d", k))}, []string{tok(trace, fmt.Sprintf("ca:%d", k))}
 	if c.absent(k, 0) {
 		up = nil
+	}
+	if k < len(c.DownFail) && c.DownFail[k] {
+		down = append(down, "exit 1")
 	}
 	if c.absent(k, 1) {
 		down = nil
@@ -477,6 +483,7 @@ func genCase(rt *rapid.T, mode string) Case {
 			c.UpFail[k] = false // no up commands, nothing to fail
 		}
 		c.Absent = append(c.Absent, ab)
+		c.DownFail = append(c.DownFail, rapid.IntRange(0, 3).Draw(rt, "down-fails") == 0)
 	}
 	max := 8
 	if mode == "cli" {
